@@ -297,11 +297,9 @@ def run_c06(ctx):
             f.write(json.dumps({k: x[k] for k in ('mode', 'k', 'stream', 'done', 'readers', 'wg', 'wgspawn')}) + '\n')
     code, out = ctx.tlc('TracePipes', 'SPECIFICATION Spec\nCHECK_DEADLOCK FALSE\n', env={'TRACE': tf}, workers=1, timeout=1200,
                         name='TP', heap='4g')
-    bad = None
-    for l in out.splitlines():
-        if l.startswith('<<"BAD"'):
-            inner = l[l.index(',') + 1:].strip().rstrip('>').strip()
-            bad = [int(t) for t in inner.strip('{}').split(',') if t.strip()]
+    import re
+    m = re.search(r'<<\s*"BAD",\s*\{([^}]*)\}\s*>>', out, re.S)
+    bad = [int(t) for t in m.group(1).split(',') if t.strip()] if m else None
     if bad is None or 'No error has been found' not in out:
         raise Infra('TracePipes failed:\n' + out[-2500:])
     for i in bad:
